@@ -143,7 +143,8 @@ def read4_ability(data: bytes):
         if len(data) - i < 2:
             return (MALFORMED, "truncated record header")
         ac, follow = data[i], data[i + 1]
-        if follow < 22 or i + 2 + follow > len(data):
+        if follow not in (22, 24) or i + 2 + follow > len(data):
+            # 4:388: the documented values are 22 and, from console 1.2.3, 24; the documents give no reading for others
             return (MALFORMED, "following length")
         r = data[i + 2:i + 2 + follow]
         try:
@@ -243,7 +244,8 @@ def _c0_records(h, known: int):
     """Records at k x announced stride (5:211-215: 'Use this specific value for
     data parsing')."""
     if h["rlen"] == 0 and h["rcount"] == 0:
-        return "request"
+        # a request carries nothing after the sub-header; trailing bytes the lengths do not account for have no reading
+        return "request" if len(h["body"]) == h["normal"] else MALFORMED
     if h["rlen"] < known:
         return MALFORMED
     body = h["body"][h["normal"]:]
@@ -329,7 +331,8 @@ def read5_ability(data: bytes):
         if len(data) - i < 2:
             return (MALFORMED, "truncated record header")
         ac, follow = data[i], data[i + 1]
-        if follow < 24 or i + 2 + follow > len(data):
+        if follow != 24 or i + 2 + follow > len(data):
+            # 5:413 '(24 at this moment)': no reading is documented for another value
             return (MALFORMED, "following length")
         r = data[i + 2:i + 2 + follow]
         try:
